@@ -11,7 +11,9 @@ import (
 	"bytes"
 	"crypto/cipher"
 	"fmt"
+	"runtime"
 	"testing"
+	"time"
 	"unsafe"
 
 	"github.com/bilibili/smgo/sm4"
@@ -47,7 +49,7 @@ func TestVerif_C11_Ownership(t *testing.T) { verifOwnership(t, "C11") }
 
 func verifOwnership(t *testing.T, prop string) {
 	rec := stats.Get(prop, "ownership")
-	rec.Rule("rapid history of 3..7 calls on 1..3 AEADs built from ONE Block with different (nonce size, tag size), all kept alive: Seal, Open, Open of a forged message; message size from {0..300, 32..70 KiB, occasionally about 1 MiB}; dst from {nil, 3-byte prefix without room, empty with spare capacity between the output size and 4 MiB, exactly enough room}. After every call: result = dst || reference output (an AEAD keeps the parameters it was built with); every buffer the caller handed in or received EARLIER and did not pass now is byte-identical; the result does not overlap any such buffer; then the caller scribbles on the result. Non-trivial: a call after a rejected Open, or with a sibling AEAD alive, or of 32 KiB and more; distinct by history.")
+	rec.Rule("rapid history of 3..7 calls on 1..3 AEADs built from ONE Block with different (nonce size, tag size), all kept alive: Seal, Open, Open of a forged message; message size from {0..300, 32..70 KiB, occasionally about 1 MiB}; dst from {nil, 3-byte prefix without room, empty with spare capacity between the output size and 4 MiB, exactly enough room, output room directly before / directly after the input in one arena}; now and then one AEAD is dropped and two garbage collections run while the Block and its other AEADs stay in use. After every call: result = dst || reference output (an AEAD keeps the parameters it was built with); every buffer the caller handed in or received EARLIER and did not pass now is byte-identical; the result does not overlap any such buffer; then the caller scribbles on the result. Non-trivial: a call after a rejected Open, or with a sibling AEAD alive, or of 32 KiB and more; distinct by history.")
 	t.Cleanup(stats.FlushAll)
 	rapid.Check(t, func(t *rapid.T) {
 		r := gen.Rand(t, "seed")
@@ -99,10 +101,21 @@ func verifOwnership(t *testing.T, prop string) {
 		}
 		steps := gen.Int(t, "steps", 3, 7)
 		hist := ""
-		afterReject, big := false, false
+		afterReject, big, dropped := false, false, false
 		for i := 0; i < steps; i++ {
 			if len(aeads) < 3 && gen.Uniform(t, "sibling", 0, 2) == 0 {
 				mk() // a sibling AEAD from the same Block, possibly with other parameters; the earlier ones stay in use
+			}
+			if len(aeads) > 1 && gen.Uniform(t, "drop", 0, 3) == 0 {
+				// one of the AEADs becomes garbage while the Block and its siblings stay in use; collections and finalizers run
+				k := gen.Uniform(t, "dropwhich", 0, len(aeads)-1)
+				aeads = append(aeads[:k:k], aeads[k+1:]...)
+				for j := 0; j < 2; j++ {
+					runtime.GC()
+					time.Sleep(time.Millisecond)
+				}
+				dropped = true
+				hist += "drop+gc "
 			}
 			ai := aeads[gen.Uniform(t, "which", 0, len(aeads)-1)]
 			var n int
@@ -135,8 +148,17 @@ func verifOwnership(t *testing.T, prop string) {
 				need = n
 			}
 			var dst []byte
-			dcls := gen.Pick(t, "dst", "nil", "prefix", "empty-roomy", "empty-roomy", "exact")
+			dcls := gen.Pick(t, "dst", "nil", "prefix", "empty-roomy", "empty-roomy", "exact", "adjacent-before-input", "adjacent-after-input")
 			switch dcls {
+			case "adjacent-before-input":
+				// one arena: room for the output, then — without a gap — the input (legal: the regions touch but do not overlap)
+				arena := make([]byte, need+len(input))
+				copy(arena[need:], input)
+				dst, input = arena[:0:need], arena[need:]
+			case "adjacent-after-input":
+				arena := make([]byte, len(input)+need)
+				copy(arena, input)
+				input, dst = arena[:len(input):len(input)], arena[len(input):len(input):len(input)+need]
 			case "prefix":
 				dst = []byte{1, 2, 3}
 			case "empty-roomy":
@@ -207,7 +229,7 @@ func verifOwnership(t *testing.T, prop string) {
 				}
 			}
 		}
-		rec.Case(stats.HashS(hist)^stats.Hash(key), afterReject || len(aeads) > 1 || big, fmt.Sprintf("aeads:%d", len(aeads)), fmt.Sprintf("after-reject:%v", afterReject), fmt.Sprintf("32KiB+:%v", big))
+		rec.Case(stats.HashS(hist)^stats.Hash(key), afterReject || len(aeads) > 1 || big || dropped, fmt.Sprintf("aead-dropped+gc:%v", dropped), fmt.Sprintf("aeads:%d", len(aeads)), fmt.Sprintf("after-reject:%v", afterReject), fmt.Sprintf("32KiB+:%v", big))
 		if rec.WantSample(fmt.Sprint(len(aeads), afterReject)) {
 			rec.Sample(fmt.Sprint(len(aeads), afterReject), map[string]interface{}{"history": hist})
 		}
